@@ -33,13 +33,19 @@ theorem C03_bound (w : World) (d : Drain) (hp : d.phase = 0)
   simp only [this, if_true]
   split <;> rfl
 
-/-- A request still running at the deadline is cut off with 504 (never presented as served). -/
+/-- A request still running at the deadline is cut off with 504 (never presented as served) — unless the target
+    had already started its response (a stream), in which case the client keeps the status it was given and the
+    body ends there. -/
 theorem C03_cut_is_504 (w : World) (r : Req) (tid : Nat) (t : Tgt)
     (hr : getR w r.id = some r) (hp : r.phase = .inflight tid) (ht : getT w tid = some t) :
-    (cancelByDrain w r.id).events = w.events ++ [s!"done r{r.id} status={504} by={"-"}"] := by
+    (r.started = none → (cancelByDrain w r.id).events = w.events ++ [s!"done r{r.id} status={504} by={"-"}"]) ∧
+    (∀ st, r.started = some st →
+      (cancelByDrain w r.id).events = w.events ++ [s!"done r{r.id} status={st} by={showB t.name}"]) := by
   unfold cancelByDrain
   simp only [hr, hp, ht]
-  rfl
+  constructor
+  · intro hs; rw [hs]; rfl
+  · intro st hs; rw [hs]; rfl
 
 /-- The mechanism of F12: a drain that finds the target already draining returns at once,
     without waiting and without a snapshot. -/
